@@ -22,6 +22,7 @@ type EvalCtx struct {
 	loopEntry *MemState
 	at        ssa.Instruction // program point for local-name resolution (nil = function end / header)
 	copyFromOld bool
+	frameExcept map[string][]string // gomem_unchanged(...): per leaf array, extra conditions on address a
 	inLoopEntry bool
 	wit         []string // candidate witnesses for Int-bound existentials (loop indices)
 	witDepth    int
@@ -935,6 +936,17 @@ func (ec *EvalCtx) evalCall(x *ECall) Val {
 		v := ec.eval(x.Args[1])
 		s := ex.D.sortOf(t)
 		return Val{T: ex.D.unbox(s, fmt.Sprintf("(ival %s)", v.T)), S: s, G: t}
+	case "asptr": // give an address the Go type *T for the named T (so that it can be dereferenced in contracts)
+		lit, ok := x.Args[0].(*ELit)
+		if !ok {
+			ec.fail("asptr needs a type name literal")
+		}
+		t := ex.resolveType(lit.Val)
+		if t == nil {
+			ec.fail("asptr: unknown type %q", lit.Val)
+		}
+		v := ec.coerce(ec.eval(x.Args[1]), SInt)
+		return Val{T: v.T, S: SInt, G: types.NewPointer(t)}
 	case "hastype":
 		lit, ok := x.Args[0].(*ELit)
 		if !ok {
@@ -981,7 +993,60 @@ func (ec *EvalCtx) evalCall(x *ECall) Val {
 		return fr.val(g)
 	case "oldmem_unchanged": // every pre-existing Go memory location (and model row of a pre-existing object) holds its entry value
 		return Val{T: ec.memFrame(ec.old, ec.mem, true), S: SBool}
-	case "gomem_unchanged": // Go memory only (heap cells and maps) at pre-existing locations is as in the pre-state
+	case "gomem_unchanged": // Go memory only (heap cells and maps) at pre-existing locations is as in the pre-state;
+		// arguments are locations (lvalues, evaluated in the pre-state) that are exempt
+		if len(x.Args) > 0 {
+			oc := *ec
+			oc.mem = ec.old
+			exc := map[string][]string{}
+			for _, a := range x.Args {
+				if c, ok := a.(*ECall); ok && c.Fn == "alloc" && (len(c.Args) == 1 || len(c.Args) == 2) {
+					// the whole allocation the pointer points into (optionally only one leaf class)
+					pv := oc.coerce(oc.eval(c.Args[0]), SInt)
+					key := "M_*"
+					if len(c.Args) == 2 {
+						l, ok := c.Args[1].(*ELit)
+						if !ok {
+							ec.fail("alloc: second argument must be a leaf class literal")
+						}
+						key = "M_" + l.Val
+					}
+					exc[key] = append(exc[key], fmt.Sprintf("(not (= (root a) (root %s)))", pv.T))
+					continue
+				}
+				if c, ok := a.(*ECall); ok && c.Fn == "class" && len(c.Args) == 1 {
+					// every cell of one leaf class (e.g. class("Str"): all string cells) is exempt
+					l, ok := c.Args[0].(*ELit)
+					if !ok {
+						ec.fail("class: argument must be a leaf class literal")
+					}
+					exc["M_"+l.Val] = append(exc["M_"+l.Val], "false")
+					continue
+				}
+				if c, ok := a.(*ECall); ok && c.Fn == "elems" && len(c.Args) == 1 {
+					// the first len(s) elements of slice s
+					sv := oc.eval(c.Args[0])
+					st, ok := sv.G.Underlying().(*types.Slice)
+					if !ok {
+						ec.fail("elems: %s is not a slice", exprString(c.Args[0]))
+					}
+					arrs := map[string]bool{}
+					ex.leafArraysOf(st.Elem(), arrs, map[string]bool{})
+					for an := range arrs {
+						exc[an] = append(exc[an], fmt.Sprintf("(not (and (= (root a) (root (sarr %s))) (not %s)))", sv.T, inSpare("a", sv.T)))
+					}
+					continue
+				}
+				lv := oc.lvalOf(a)
+				ex.leafAddrs(lv.t, lv.addr, func(arr, addr string) {
+					exc[arr] = append(exc[arr], fmt.Sprintf("(not (= a %s))", addr))
+				})
+			}
+			ec.frameExcept = exc
+			r := ec.memFrame(ec.old, ec.mem, false)
+			ec.frameExcept = nil
+			return Val{T: r, S: SBool}
+		}
 		return Val{T: ec.memFrame(ec.old, ec.mem, false), S: SBool}
 	case "gomem_unchanged_in_loop": // ... as at loop entry
 		if ec.loopEntry == nil {
@@ -1112,6 +1177,18 @@ func (ex *Exec) declUFun(uf *UFunDecl) {
 
 // resolveType finds a Go type by "pkgpath.Name" or "*pkgpath.Name".
 func (ex *Exec) resolveType(s string) types.Type {
+	if strings.HasPrefix(s, "[]") {
+		if et := ex.resolveType(s[2:]); et != nil {
+			return types.NewSlice(et)
+		}
+		return nil
+	}
+	if strings.HasPrefix(s, "*[]") {
+		if et := ex.resolveType(s[1:]); et != nil {
+			return types.NewPointer(et)
+		}
+		return nil
+	}
 	ptr := strings.HasPrefix(s, "*")
 	s = strings.TrimPrefix(s, "*")
 	i := strings.LastIndex(s, ".")
@@ -1201,7 +1278,14 @@ func (ec *EvalCtx) memFrame(a, b *MemState, withModels bool) string {
 		if base == "" {
 			base = "allocbase"
 		}
-		parts = append(parts, fmt.Sprintf("(forall ((a Int)) (! (=> (<= (root a) %s) (= (select %s a) (select %s a))) :pattern ((select %s a))))", base, x, y, y))
+		cond := fmt.Sprintf("(<= (root a) %s)", base)
+		if e := ec.frameExcept[k]; len(e) > 0 {
+			cond = and(append([]string{cond}, e...)...)
+		}
+		if e := ec.frameExcept["M_*"]; len(e) > 0 && strings.HasPrefix(k, "M_") {
+			cond = and(append([]string{cond}, e...)...)
+		}
+		parts = append(parts, fmt.Sprintf("(forall ((a Int)) (! (=> %s (= (select %s a) (select %s a))) :pattern ((select %s a))))", cond, x, y, y))
 	}
 	return and(parts...)
 }
